@@ -36,6 +36,7 @@ import XotModel.Lemmas.FspecAllNormal
 import XotModel.Lemmas.FspecAllRepl6
 import XotModel.Lemmas.FspecAllFrame2
 import XotModel.Lemmas.FspecStrComposite
+import XotModel.Lemmas.FspecFrameComposite
 
 namespace XotModel.Props
 open XotModel XotModel.Spec
@@ -1206,5 +1207,98 @@ example :
       ((f.insertAfter 3 2).1.ctx? 6).map HTree.Ctx.shape = some (5, [], .element 3, [7]) ∧
       ((f.insertAfter 3 2).1.ctx? 7).map HTree.Ctx.shape = (f.ctx? 7).map HTree.Ctx.shape := by
   decide
+
+/-! ### The frames of `detach`, `element_unwrap`, `element_wrap` without `Forest.Normal`
+
+  For EVERY forest with the invariant (Lemmas/FspecFrameComposite.lean, from the pair readings `specDetachP`, `specUnwrapP`
+  and `specWrap`, each ONE edit of one child list plus - for detach and a parentless wrap - a new parentless tree at the
+  end of the list):
+    detach(n)          a node outside the subtree whose parent is not the parent `n` leaves keeps its place;
+    element_unwrap(n)  (`n` has the parent `p`) a node whose parent is neither `p` nor `n` keeps its place - in particular
+                       everything deeper inside `n`; a parentless `n` that is accepted has no normal child and the call IS
+                       `remove(n)` (`C05_unwrap_parentless`), so `C05_pair_frame_remove` applies;
+    element_wrap(n)    a node whose parent is not the parent of `n` keeps its place - everything inside `n` included
+                       (`n` itself gets the wrapper as parent); for a parentless `n` every node that has a parent does.
+  `replace` on forests with adjacent text: `C05_frame_replace` above is under `Forest.Normal`; when the replacing node
+  already stands next to the replaced one the call is `remove` and `C05_pair_frame_remove` applies without `Normal`
+  (`C05_pair_frame_replace_adjacent`); the frame of the specification `specReplace keep` itself needs no `Normal`
+  (`frame_specReplace`), the pair reading `specReplaceP` in the other geometries is not framed here. -/
+
+theorem C05_frame_specDetachP {f : Forest} {n : Nat} {t : HTree} (inv : f.Inv)
+    (hg : f.get? n = some t) {x : Nat} {cx : HTree.Ctx} (hx : f.ctx? x = some cx)
+    (h1 : some cx.parent ≠ f.parent? n) (h3 : cx.parent ∉ HTree.handles t) (h4 : x ∉ HTree.handles t) :
+    ∃ cx', (specDetachP n f).ctx? x = some cx' ∧ cx'.shape = cx.shape :=
+  frame_specDetachP inv hg hx h1 h3 h4
+
+theorem C05_pair_frame_detach {f : Forest} {n : Nat} {t : HTree} (inv : f.Inv)
+    (hg : f.get? n = some t) {x : Nat} {cx : HTree.Ctx} (hx : f.ctx? x = some cx)
+    (h1 : some cx.parent ≠ f.parent? n) (h3 : cx.parent ∉ HTree.handles t) (h4 : x ∉ HTree.handles t) :
+    ∃ cx', (f.detach n).1.ctx? x = some cx' ∧ cx'.shape = cx.shape :=
+  detach_frame_all inv hg hx h1 h3 h4
+
+theorem C05_frame_specUnwrapP {f : Forest} {n p : Nat} (inv : f.Inv) (hp : f.parent? n = some p)
+    {x : Nat} {cx : HTree.Ctx} (hx : f.ctx? x = some cx) (h1 : cx.parent ≠ p) (h2 : cx.parent ≠ n) :
+    ∃ cx', (specUnwrapP n f).ctx? x = some cx' ∧ cx'.shape = cx.shape :=
+  frame_specUnwrapP inv hp hx h1 h2
+
+theorem C05_pair_frame_unwrap {f : Forest} {n p : Nat} (inv : f.Inv) (hok : (f.elementUnwrap n).2 = .ok)
+    (hp : f.parent? n = some p) {x : Nat} {cx : HTree.Ctx} (hx : f.ctx? x = some cx)
+    (h1 : cx.parent ≠ p) (h2 : cx.parent ≠ n) :
+    ∃ cx', (f.elementUnwrap n).1.ctx? x = some cx' ∧ cx'.shape = cx.shape :=
+  unwrap_frame_all inv hok hp hx h1 h2
+
+theorem C05_unwrap_parentless {f : Forest} {n : Nat} (hok : (f.elementUnwrap n).2 = .ok)
+    (hp : f.parent? n = none) : f.elementUnwrap n = f.remove n :=
+  elementUnwrap_parentless hok hp
+
+theorem C05_frame_specWrap {f : Forest} {n : Nat} (name : Nat) {t : HTree} (inv : f.Inv) (hg : f.get? n = some t)
+    {x : Nat} {cx : HTree.Ctx} (hx : f.ctx? x = some cx) (h1 : some cx.parent ≠ f.parent? n) :
+    ∃ cx', (specWrap n name f).ctx? x = some cx' ∧ cx'.shape = cx.shape :=
+  frame_specWrap name inv hg hx h1
+
+theorem C05_pair_frame_wrap {f : Forest} {n name : Nat} {t : HTree} (inv : f.Inv)
+    (hok : (f.elementWrap n name).2.1 = .ok) (hg : f.get? n = some t)
+    {x : Nat} {cx : HTree.Ctx} (hx : f.ctx? x = some cx) (h1 : some cx.parent ≠ f.parent? n) :
+    ∃ cx', (f.elementWrap n name).1.ctx? x = some cx' ∧ cx'.shape = cx.shape :=
+  wrap_frame_all inv hok hg hx h1
+
+/-- `<e>w x <u>i j<k/>m</u> y z <v/></e>` (adjacent text nodes), a parentless text `r`, a second tree `<g><h/>q</g>`. -/
+def frameWitness : Forest :=
+  { roots := [.node 0 (.element 2) [.node 1 (.text ['w']) [], .node 2 (.text ['x']) [],
+        .node 3 (.element 3) [.node 4 (.text ['i']) [], .node 5 (.text ['j']) [], .node 6 (.element 6) [],
+          .node 7 (.text ['m']) []],
+        .node 8 (.text ['y']) [], .node 9 (.text ['z']) [], .node 10 (.element 6) []], .node 11 (.text ['r']) [],
+        .node 12 (.element 6) [.node 13 (.element 3) [], .node 14 (.text ['q']) []]],
+    next := 15, consolidation := true, everOff := true }
+
+/-- Non-vacuity on a forest WITH adjacent text nodes: `detach(u)` merges `x`/`y`; `element_unwrap(u)` merges `(x, i)` and
+    `(m, y)`; `element_wrap(x)` merges nothing - the element `h` under `g` keeps parent, value and siblings each time,
+    and so does `k` inside `u` under `detach(u)` and `element_wrap(u)` (`u` itself gets the wrapper 15 as parent). -/
+example : frameWitness.inv = true ∧ (frameWitness.detach 3).2 = .ok ∧ (frameWitness.elementUnwrap 3).2 = .ok ∧
+    (frameWitness.elementWrap 2 6).2.1 = .ok ∧ (frameWitness.elementWrap 3 6).2.1 = .ok ∧
+    frameWitness.parent? 3 = some 0 := by decide
+example : (frameWitness.ctx? 13).map HTree.Ctx.shape = some (12, [], .element 3, [14]) ∧
+    ((frameWitness.detach 3).1.ctx? 13).map HTree.Ctx.shape = some (12, [], .element 3, [14]) ∧
+    ((frameWitness.elementUnwrap 3).1.ctx? 13).map HTree.Ctx.shape = some (12, [], .element 3, [14]) ∧
+    ((frameWitness.elementWrap 2 6).1.ctx? 13).map HTree.Ctx.shape = some (12, [], .element 3, [14]) :=
+  ⟨by decide, by decide, by decide, by decide⟩
+example : (frameWitness.ctx? 6).map HTree.Ctx.shape = some (3, [4, 5], .element 6, [7]) ∧
+    ((frameWitness.detach 3).1.ctx? 6).map HTree.Ctx.shape = some (3, [4, 5], .element 6, [7]) ∧
+    ((frameWitness.elementWrap 3 6).1.ctx? 6).map HTree.Ctx.shape = some (3, [4, 5], .element 6, [7]) ∧
+    (frameWitness.detach 3).1.value? 2 = some (.text ['x', 'y']) ∧
+    ((frameWitness.elementWrap 3 6).1.ctx? 3).map HTree.Ctx.shape = some (15, [], .element 3, []) :=
+  ⟨by decide, by decide, by decide, by decide, by decide⟩
+
+/-- `replace` with the replacing node already next to the replaced one is `remove` (whatever the text nodes around):
+    the frame of `remove` applies, without `Forest.Normal`. -/
+theorem C05_pair_frame_replace_adjacent {f : Forest} {a b : Nat} {A : HTree} (inv : f.Inv)
+    (hok : (f.replace a b).2 = .ok) (hadj : adjacentTo f a b = true) (hA : f.get? a = some A)
+    {x : Nat} {cx : HTree.Ctx} (hx : f.ctx? x = some cx)
+    (h1 : some cx.parent ≠ f.parent? a) (h3 : cx.parent ∉ HTree.handles A) (h4 : x ∉ HTree.handles A) :
+    ∃ cx', (f.replace a b).1.ctx? x = some cx' ∧ cx'.shape = cx.shape := by
+  rw [replace_pair inv hok]
+  unfold specReplaceP
+  rw [hadj, if_pos rfl]
+  exact frame_specRemoveP inv hA hx h1 h3 h4
 
 end XotModel.Props
